@@ -5,6 +5,7 @@ import (
 	"go/token"
 	"go/types"
 	"sort"
+	"strings"
 
 	"golang.org/x/tools/go/ssa"
 )
@@ -289,8 +290,22 @@ func (bf *byteFlow) condSet(cond ssa.Value, depth int) (bset, bool) {
 			}
 		}
 	case *ssa.Call:
+		// membership of the byte in a frozen list of codes
+		if s, ok := bf.memberSet(x, bf.subject); ok {
+			return note(s), true
+		}
 		// pred(byte): a repository function of the code alone
 		callee := x.Call.StaticCallee()
+		if callee != nil && bf.w.InRepo(callee) && len(callee.Params) == 1 && len(x.Call.Args) == 1 && bf.subject(x.Call.Args[0]) && callee.Blocks != nil {
+			// ... whose one result is such a membership test of its parameter
+			if rets := liveReturns(callee); len(rets) == 1 && len(rets[0].Results) == 1 {
+				if inner, isCall := throughCell(strip(rets[0].Results[0])).(*ssa.Call); isCall {
+					if s, ok := bf.memberSet(inner, func(v ssa.Value) bool { return throughCell(strip(v)) == ssa.Value(callee.Params[0]) }); ok {
+						return note(s), true
+					}
+				}
+			}
+		}
 		if callee == nil || !bf.w.InRepo(callee) || len(callee.Params) != 1 || len(x.Call.Args) != 1 || !bf.subject(x.Call.Args[0]) {
 			return bset{}, false
 		}
@@ -501,4 +516,127 @@ func minimalFor(sets []bset, k int64) []bset {
 		}
 	}
 	return out
+}
+
+// sliceLiteralSet: g is a package-level slice of integers (bytes) set once, in the package initialiser, to a literal of
+// constants, whose elements nothing writes afterwards (the slice is only read, ranged over, measured, or handed to the
+// read-only library searches); returns the set of its elements.
+func (bf *byteFlow) sliceLiteralSet(g *ssa.Global) (bset, bool) {
+	if g == nil || g.Pkg == nil {
+		return bset{}, false
+	}
+	sl, ok := g.Type().(*types.Pointer).Elem().Underlying().(*types.Slice)
+	if !ok {
+		return bset{}, false
+	}
+	if b, ok := sl.Elem().Underlying().(*types.Basic); !ok || b.Info()&types.IsInteger == 0 {
+		return bset{}, false
+	}
+	init := g.Pkg.Func("init")
+	if init == nil {
+		return bset{}, false
+	}
+	var backing *ssa.Alloc
+	readOnly := map[string]bool{"slices.Contains": true, "slices.Index": true, "bytes.IndexByte": true, "bytes.Contains": true, "builtin:len": true, "builtin:cap": true}
+	for _, fn := range bf.w.repoFns {
+		for _, b := range fn.Blocks {
+			for _, ins := range b.Instrs {
+				switch x := ins.(type) {
+				case *ssa.Store:
+					if x.Addr == ssa.Value(g) {
+						s, isSl := x.Val.(*ssa.Slice)
+						if fn != init || !isSl || backing != nil {
+							return bset{}, false
+						}
+						a, isA := s.X.(*ssa.Alloc)
+						if !isA || s.Low != nil || s.High != nil {
+							return bset{}, false
+						}
+						backing = a
+					}
+					if x.Val == ssa.Value(g) {
+						return bset{}, false
+					}
+				case *ssa.UnOp:
+					if x.X != ssa.Value(g) || x.Referrers() == nil {
+						continue
+					}
+					for _, r := range *x.Referrers() {
+						switch u := r.(type) {
+						case *ssa.IndexAddr:
+							for _, rr := range *u.Referrers() {
+								if st, isSt := rr.(*ssa.Store); isSt && st.Addr == ssa.Value(u) {
+									return bset{}, false
+								}
+								if _, isLd := rr.(*ssa.UnOp); !isLd {
+									if _, isDbg := rr.(*ssa.DebugRef); !isDbg {
+										return bset{}, false
+									}
+								}
+							}
+						case *ssa.Range, *ssa.DebugRef:
+						case ssa.CallInstruction:
+							if !readOnly[strings.SplitN(calleeName(u), "[", 2)[0]] {
+								return bset{}, false
+							}
+						default:
+							return bset{}, false
+						}
+					}
+				case ssa.CallInstruction:
+					for _, a := range x.Common().Args {
+						if a == ssa.Value(g) {
+							return bset{}, false
+						}
+					}
+				}
+			}
+		}
+	}
+	if backing == nil || backing.Referrers() == nil {
+		return bset{}, false
+	}
+	var s bset
+	n := 0
+	for _, r := range *backing.Referrers() {
+		switch u := r.(type) {
+		case *ssa.IndexAddr:
+			for _, rr := range *u.Referrers() {
+				st, isSt := rr.(*ssa.Store)
+				if !isSt || st.Addr != ssa.Value(u) {
+					return bset{}, false
+				}
+				v, isK := intConst(st.Val)
+				if _, isIdx := intConst(u.Index); !isK || !isIdx || v < 0 || v > 255 {
+					return bset{}, false
+				}
+				s.add(v)
+				n++
+			}
+		case *ssa.Slice, *ssa.DebugRef:
+		default:
+			return bset{}, false
+		}
+	}
+	if arr, ok := backing.Type().(*types.Pointer).Elem().Underlying().(*types.Array); !ok || int64(n) != arr.Len() {
+		return bset{}, false // an element left at zero would be a member too: only fully spelled literals
+	}
+	return s, true
+}
+
+// memberSet: cond is slices.Contains(<frozen literal of codes>, <the byte>) - directly or as the single result of a
+// predicate function of the byte.
+func (bf *byteFlow) memberSet(cv *ssa.Call, subject func(ssa.Value) bool) (bset, bool) {
+	if !strings.HasPrefix(calleeName(cv), "slices.Contains") || strings.HasPrefix(calleeName(cv), "slices.ContainsFunc") || len(cv.Call.Args) != 2 || !subject(cv.Call.Args[1]) {
+		return bset{}, false
+	}
+	ld, ok := throughCell(strip(cv.Call.Args[0])).(*ssa.UnOp)
+	if !ok || ld.Op != token.MUL {
+		return bset{}, false
+	}
+	g, ok := ld.X.(*ssa.Global)
+	if !ok {
+		return bset{}, false
+	}
+	return bf.sliceLiteralSet(g)
 }
